@@ -30,6 +30,7 @@ class Result:
         self.extra = {}
         self.assumptions = []
         self.checker_cmd = ""
+        self.stream_data = {}
 
     def evidence(self, tier, seed, wall):
         cov = {
@@ -63,6 +64,7 @@ def nontrivial_sink(case, out):
 
 PROPS = {
     "C11": {
+        "diff_is_violation": True,
         "coq": "theories/Props/C11.v",
         "theorems": ["C11_sink_refines_ideal", "C11_user_sink_receives_ideal", "C11_bits_view"],
         "streams": [{"name": "SINK", "quick": 6000, "thorough": 120000, "profiles": ["debug", "release"],
@@ -74,6 +76,18 @@ PROPS = {
         "assumptions": ["model of bitsink.rs is hand-written; tied by SINK correspondence (debug+release)",
                         "operand widths are the four sealed Bits types; bit counts n <= width (n > width is a caller bug that panics)"],
     },
+}
+
+
+PROPS["C09"] = {
+    "coq": "theories/Props/C09.v",
+    "theorems": ["C09_subframe_le_verbatim", "C09_frame_body_le_verbatim", "C09_frame_bits_bound"],
+    "streams": "ENC",
+    "rule": "ENC",
+    "oracle": lambda pid, res, driver: enc_oracle(pid, res, driver),
+    "assumptions": ["the entropy estimator and the LPC estimator are arbitrary functions (oracles) in the theorems",
+                    "frame byte length = frame_count_bits/8 is property C08",
+                    "hand-written model of coding.rs tied by whole-stream byte correspondence (ENC)"],
 }
 
 
@@ -140,13 +154,19 @@ def run_streams(pid, spec, tier, seed, res, replay_cases=None):
         cases = [c for c in cases if c.split(" ", 1)[0] == st["name"]]
         if not cases:
             continue
-        model_out = fv.run_lines([driver], cases, timeout=st.get("timeout", 1500))
+        model_in = cases
+        if st.get("augment"):
+            aug = fv.run_lines([bins["debug"], "augment"], cases, timeout=st.get("timeout", 1500), key_index=1)
+            model_in = aug
+        model_out = fv.run_lines([driver], model_in, timeout=st.get("timeout", 1500))
+        res.stream_data[st["name"]] = {"cases": cases, "impl": {}, "model": model_out}
         for prof in st["profiles"]:
             if prof not in bins:
                 continue
             impl_out = fv.run_lines(bins[prof], cases, timeout=st.get("timeout", 1500),
                                     memlimit_kb=st.get("memlimit_kb"))
             res.evaluations += len(cases)
+            res.stream_data[st["name"]]["impl"][prof] = impl_out
             for c, io, mo in zip(cases, impl_out, model_out):
                 if prof == "debug":
                     key = fv.sha(c.split(" ", 2)[2] if c.count(" ") >= 2 else c)
@@ -166,6 +186,11 @@ def run_streams(pid, spec, tier, seed, res, replay_cases=None):
 
 
 def run_check(pid, spec, tier, seed, replay):
+    spec = dict(spec)
+    if spec.get("streams") == "ENC":
+        spec["streams"] = [dict(ENC_STREAM)]
+    if spec.get("rule") == "ENC":
+        spec["rule"] = ENC_RULE
     res = Result(pid)
     res.rule = spec.get("rule", "")
     res.assumptions = spec.get("assumptions", [])
@@ -186,12 +211,35 @@ def run_check(pid, spec, tier, seed, replay):
     except fv.CheckError as e:
         res.violations.append({"kind": "correspondence-infrastructure", "detail": str(e)[-3000:], "has_input": False,
                                "no_longer_checks": "extraction/driver/harness for %s" % pid})
-    # (6) classify
+    # (6) property oracle on the implementation's outputs (independent of the diff)
     kf = fv.known_findings()
-    oracle = spec.get("oracle")
     found_input = False
+    prop_oracle = spec.get("oracle")
+    if prop_oracle:
+        try:
+            findings = prop_oracle(pid, res, fv.build_driver())
+        except fv.CheckError as e:
+            findings = []
+            res.violations.append({"kind": "oracle-infrastructure", "detail": str(e)[-2000:], "has_input": False,
+                                   "no_longer_checks": "property oracle of %s" % pid})
+        for fd in findings:
+            hit = None
+            for k in kf.get("known", []):
+                if k["property"] == pid and re.search(k["case_regex"], fd["case"]) and re.search(k.get("impl_regex", ""), fd.get("impl", "")):
+                    hit = k; break
+            if hit:
+                msg = "%s (%s)" % (hit["id"], hit["what"])
+                if msg not in res.known_hits:
+                    res.known_hits.append(msg)
+                continue
+            found_input = True
+            if len([v for v in res.violations if v.get("kind") == "counterexample"]) < 5:
+                res.violations.append(dict(fd, kind="counterexample", has_input=True))
+    diff_is_violation = spec.get("diff_is_violation", False)
     for d in disagreements[:200]:
-        cls = oracle(d) if oracle else {"violates": True, "why": "implementation output differs from the proved model on an observable the property constrains"}
+        cls = {"violates": diff_is_violation,
+               "why": "implementation output differs from the proved model" + (" on an observable the property constrains" if diff_is_violation else
+                      "; the property oracle found no failing input among the explored cases")}
         hit = None
         for k in kf.get("known", []):
             if k["property"] == pid and re.search(k["case_regex"], d["case"]) and re.search(k.get("impl_regex", ""), d["impl"]):
@@ -215,3 +263,120 @@ def run_check(pid, spec, tier, seed, replay):
         # a concrete failing input was found; mention the broken proof in the first counterexample
         res.violations[0]["proof_also_broken"] = res.proof_failure["no_longer_checks"]
     return res
+
+
+# ----------------------------------------------------------------------------------------
+# ENC-based property oracles: the implementation's bytes are decoded by the extracted,
+# independent RFC 9639 decoder (Model/Flac.v) and compared with the raw input.
+
+import hashlib
+
+
+def parse_enc_case(c):
+    t = c.split(" | ")[0].split(" ")
+    cfg = dict(kv.split("=") for kv in t[2].split(";"))
+    samples = [] if t[7] == "-" else [int(x) for x in t[7].split(",")]
+    return {"id": t[1], "cfg": cfg, "rate": int(t[3]), "ch": int(t[4]), "bps": int(t[5]), "bs": int(t[6]), "samples": samples}
+
+
+def utf8len(v):
+    for k, lim in enumerate([1 << 7, 1 << 11, 1 << 16, 1 << 21, 1 << 26, 1 << 31, 1 << 36]):
+        if v < lim:
+            return k + 1
+    return 7
+
+
+def header_bytes(block, rate, number):
+    named_b = {192, 576, 1152, 2304, 4608, 256, 512, 1024, 2048, 4096, 8192, 16384, 32768}
+    xb = 0 if block in named_b else (1 if block <= 256 else 2)
+    named_r = {88200, 176400, 192000, 8000, 16000, 22050, 24000, 32000, 44100, 48000, 96000}
+    if rate in named_r: xr = 0
+    elif rate % 1000 == 0 and rate // 1000 <= 255: xr = 1
+    elif rate % 10 == 0 and rate // 10 <= 65535: xr = 2
+    elif rate <= 65535: xr = 2
+    else: xr = 0
+    return 4 + utf8len(number) + xb + xr + 1
+
+
+def md5_of(bps, samples):
+    nb = (bps + 7) // 8
+    h = hashlib.md5()
+    h.update(b"".join((x & 0xFFFFFFFF).to_bytes(4, "little")[:nb] for x in samples))
+    return h.hexdigest()
+
+
+def enc_oracle(pid, res, driver, stream="ENC"):
+    data = res.stream_data.get(stream)
+    if not data:
+        return []
+    cases, impl = data["cases"], data["impl"].get("debug", [])
+    dec_in, idx = [], {}
+    findings = []
+    for c, o in zip(cases, impl):
+        t = o.split(" ")
+        if len(t) >= 2 and t[1] == "ok":
+            dec_in.append("DEC %s %s" % (t[0], t[-1]))
+        idx[t[0]] = (c, o)
+    dec_out = fv.run_lines([driver], dec_in, timeout=1500)
+    dec = {d.split(" ", 1)[0]: d for d in dec_out}
+    checked = 0
+    for c, o in zip(cases, impl):
+        pc = parse_enc_case(c)
+        t = o.split(" ")
+        short = {"case": c, "impl": o[:400]}
+        if len(t) < 2 or t[1] != "ok":
+            if pid in ("C01", "C07"):
+                findings.append(dict(short, why="valid input and verified configuration were not encoded: %s" % " ".join(t[1:3])))
+            continue
+        d = dec.get(t[0], "")
+        dt = d.split(" ")
+        checked += 1
+        n = len(pc["samples"]) // pc["ch"]
+        if len(dt) < 2 or dt[1] != "ok":
+            if pid in ("C01", "C02", "C04"):
+                findings.append(dict(short, why="the independent strict decoder (extracted Flac.decode_stream) rejects the emitted stream: %s" % d[:80]))
+            continue
+        f = dict(kv.split("=") for kv in dt[2:12])
+        samples = [] if dt[12] == "-" else [int(x) for x in dt[12].split(",")]
+        lens = [] if f["lens"] in ("-", "?") else [int(x) for x in f["lens"].split(",")]
+        if pid == "C01":
+            if samples != pc["samples"] or int(f["rate"]) != pc["rate"] or int(f["ch"]) != pc["ch"] or int(f["bps"]) != pc["bps"] or int(f["total"]) != n:
+                findings.append(dict(short, why="decoded audio/format differs from the input (first diff at %s)" % next((i for i, (a, b) in enumerate(zip(samples, pc["samples"])) if a != b), "length/format")))
+        elif pid == "C03":
+            exp = md5_of(pc["bps"], pc["samples"])
+            if int(f["rate"]) != pc["rate"] or int(f["ch"]) != pc["ch"] or int(f["bps"]) != pc["bps"] or int(f["total"]) != n or f["md5"].replace("-", "") != exp:
+                findings.append(dict(short, why="STREAMINFO %s does not state the input (expected total=%d md5=%s)" % (f, n, exp)))
+        elif pid == "C04":
+            if lens:
+                ok = int(f["maxb"]) == pc["bs"] and int(f["minb"]) >= 16 and int(f["minb"]) <= pc["bs"] and int(f["minf"]) == min(lens) and int(f["maxf"]) == max(lens)
+                if not ok:
+                    findings.append(dict(short, why="STREAMINFO bounds %s vs block size %d and frame lengths min=%d max=%d" % (f, pc["bs"], min(lens), max(lens))))
+        elif pid == "C09":
+            for i, L in enumerate(lens):
+                blk = pc["bs"] if (i + 1) * pc["bs"] <= n else n - i * pc["bs"]
+                verb = header_bytes(blk, pc["rate"], i) + (pc["ch"] * (8 + pc["bps"] * blk) + 7) // 8 + 2
+                if L > verb + 2 * pc["ch"]:
+                    findings.append(dict(short, why="frame %d has %d bytes > verbatim %d + 2 per channel" % (i, L, verb)))
+                    break
+            raw = len(pc["samples"]) * ((pc["bps"] + 7) // 8)
+        elif pid == "C08":
+            m = re.search(r"cb=(\d+)", o)
+            if m and int(m.group(1)) != 4 * len(t[-1]):
+                findings.append(dict(short, why="Stream::count_bits=%s but %d bits were written" % (m.group(1), 4 * len(t[-1]))))
+    res.extra["oracle_checked"] = checked
+    return findings
+
+
+def nontrivial_enc(case, out):
+    t = out.split(" ")
+    return len(t) > 2 and t[1] == "ok" and ("F" in t[2] or "L" in t[2])
+
+
+ENC_STREAM = {"name": "ENC", "quick": 700, "thorough": 12000, "profiles": ["debug", "release"], "augment": True,
+              "nontrivial": nontrivial_enc, "memlimit_kb": 6000000, "release_in_quick": False}
+ENC_RULE = ("ENC: whole-stream single-thread encoding of generated inputs (signal grammar: silence, DC, full-scale, "
+            "alternating sign, impulses, noise at several levels, sinusoids, ramps, narrow-band AR, quadratic-residue, "
+            "sparse; correlated/anti-correlated stereo; concatenations), widths 8/12/16/20/24, 1-8 channels, block sizes "
+            "32..1152 incl. boundaries, 0-3 full blocks plus tails 0/1/15/16/17/random, all rate code classes, random "
+            "verified configurations over all fields. Observable: every byte of the stream, per-frame subframe kinds/orders, "
+            "count_bits. Non-trivial = at least one Fixed/LPC subframe; distinct = distinct case text.")
